@@ -32,6 +32,12 @@ theorem tie_path_creatable :
        "'d' in mode and os.access(abs_path, os.F_OK) and (not os.path.isdir(abs_path))",
        "'f' in mode and os.access(abs_path, os.F_OK) and (not (os.path.isfile(abs_path) or is_fifo(abs_path)))"] := by decide
 
+/-- "the parent directory" of the creatable check is the directory the file will really be created in
+    (`realpath` of `path/..`, which follows a symbolic link in the last component) — this is what `Env.noParent` /
+    `Env.roParent` are facts about -/
+theorem tie_path_creatable_parent :
+    Jap.Gen.SaveOrder.pathCreatableParent = "os.path.realpath(os.path.join(abs_path, '..'))" := by decide
+
 /-! ## no silent overwrite -/
 
 /-- C18_no_overwrite: without `overwrite`, every file that existed keeps its content — for every
